@@ -29,6 +29,9 @@ RULE = ('(value, spec) pairs: 17 operators x operand pairs (integers, decimals, 
         'non-pyparsing whitespace), plus in-process call sequences: families of specs with the same characters once '
         'whitespace is removed (operands split at different places), evaluated back to back in both orders against '
         'the same values (the model is stateless; the oracle of each call uses that call\'s arguments alone); '
+        'match() in every call form of its pinned signature match(cmp_value, spec) (positional, keyword, mixed, '
+        'keywords permuted); match() before and after a caller takes the grammar from the public make_grammar() and uses / '
+        'copies / names / streamlines / customises it (ignore, leave_whitespace, set_whitespace_chars, add_parse_action, |=); '
         'a case is non-trivial when the parse has an operator token and at least one '
         'operand and both sides return a boolean; distinct by (value, spec)')
 TRUSTED_BASE = [
@@ -241,12 +244,31 @@ def impl_tree(spec):
             return None
 
 
-def impl_match(value, spec):
+# The pinned public interface (as on the clean tree; written here as data, not read from the tree under test).
+SIGNATURES = {'match': ('cmp_value', 'spec'), 'make_grammar': ()}
+# call forms of match(cmp_value, spec): both positional, second by keyword, both by keyword, keywords permuted
+FORMS = ['pp', 'pk', 'kk', 'kr']
+
+
+def call_match(sm, value, spec, form='pp'):
+    a, b = SIGNATURES['match']
+    if form == 'pp':
+        return sm.match(value, spec)
+    if form == 'pk':
+        return sm.match(value, **{b: spec})
+    if form == 'kk':
+        return sm.match(**{a: value, b: spec})
+    if form == 'kr':
+        return sm.match(**{b: spec, a: value})
+    raise ValueError('unknown call form %r' % (form,))
+
+
+def impl_match(value, spec, form='pp'):
     sm = _sm()
     with warnings.catch_warnings():
         warnings.simplefilter('ignore')
         try:
-            r = sm.match(value, spec)
+            r = call_match(sm, value, spec, form)
         except Exception as e:     # noqa: the class name is the canonical outcome
             return type(e).__name__
     if r is True:
@@ -254,6 +276,86 @@ def impl_match(value, spec):
     if r is False:
         return 'ok:0'
     return 'value:%r' % (r,)
+
+
+# What a caller may do with the object the public helper make_grammar() hands out (it is documented to return
+# "a pyparsing.MatchFirst object"): use it, copy it, name it, streamline it, and customise it in place.
+# None of this may change what match() answers afterwards.
+MUTATIONS = ['none', 'parse', 'copy', 'set_name', 'streamline', 'ignore', 'leave_whitespace',
+             'set_whitespace_chars', 'add_parse_action', 'ior', 'twice']
+_EVENTS = []        # grammar events applied to the implementation in this process, in order
+
+
+def apply_event(name):
+    """Call the public make_grammar() (pinned signature: no parameters) and treat the result as a caller would."""
+    import pyparsing as pp
+    sm = _sm()
+    _EVENTS.append((None, name))
+
+    def meth(obj, snake, camel):
+        return getattr(obj, snake, None) or getattr(obj, camel)
+    with warnings.catch_warnings():
+        warnings.simplefilter('ignore')
+        g = sm.make_grammar(*SIGNATURES['make_grammar'])
+        if name == 'parse':
+            try:
+                meth(g, 'parse_string', 'parseString')('>= 5 trailing')
+            except pp.ParseException:
+                pass
+        elif name == 'copy':
+            meth(g.copy(), 'leave_whitespace', 'leaveWhitespace')()
+        elif name == 'set_name':
+            meth(g, 'set_name', 'setName')('spec')
+        elif name == 'streamline':
+            g.streamline()
+        elif name == 'ignore':
+            g.ignore('#' + (getattr(pp, 'rest_of_line', None) or pp.restOfLine))
+        elif name == 'leave_whitespace':
+            meth(g, 'leave_whitespace', 'leaveWhitespace')()
+        elif name == 'set_whitespace_chars':
+            meth(g, 'set_whitespace_chars', 'setWhitespaceChars')('\t')
+        elif name == 'add_parse_action':
+            meth(g, 'add_parse_action', 'addParseAction')(lambda t: ['customised'])
+        elif name == 'ior':
+            g |= pp.Literal('zzz')
+        elif name == 'twice':
+            h = sm.make_grammar()
+            meth(h, 'leave_whitespace', 'leaveWhitespace')()
+            meth(g, 'add_parse_action', 'addParseAction')(lambda t: [])
+        elif name != 'none':
+            raise ValueError('unknown grammar event %r' % (name,))
+    return 'event'
+
+
+def is_event(c):
+    return c[0] is None
+
+
+def vsf(c):
+    """(value, spec, form) of a match call"""
+    return c[0], c[1], (c[2] if len(c) > 2 else 'pp')
+
+
+def mk_call(v, s, form='pp'):
+    return (v, s) if form == 'pp' else (v, s, form)
+
+
+def show_call(c):
+    if is_event(c):
+        return 'g = make_grammar(); <%s on g>' % c[1]
+    v, s, form = vsf(c)
+    a, b = SIGNATURES['match']
+    return {'pp': 'match(%r, %r)' % (v, s), 'pk': 'match(%r, %s=%r)' % (v, b, s),
+            'kk': 'match(%s=%r, %s=%r)' % (a, v, b, s), 'kr': 'match(%s=%r, %s=%r)' % (b, s, a, v)}[form]
+
+
+def do_call(c):
+    return apply_event(c[1]) if is_event(c) else impl_match(*vsf(c))
+
+
+def run_calls(calls):
+    """Execute a call sequence on the implementation (used by the fresh-interpreter child)."""
+    return [do_call(tuple(c)) for c in calls]
 
 
 def show_tree(tree):
@@ -791,19 +893,11 @@ def family_calls(vals, specs, rng):
 
 
 _FRESH_CODE = r"""
-import sys, json, warnings
-sys.path.insert(0, sys.argv[1])
-warnings.simplefilter('ignore')
-from oslo_utils import specs_matcher as sm
-out = []
-for v, s in json.load(sys.stdin):
-    try:
-        r = sm.match(v, s)
-    except Exception as e:
-        out.append(type(e).__name__)
-        continue
-    out.append('ok:1' if r is True else 'ok:0' if r is False else 'value:%r' % (r,))
-json.dump(out, sys.stdout)
+import sys, json
+sys.path[:0] = [sys.argv[1], sys.argv[1] + '/props']
+import common
+from props import C18
+json.dump(C18.run_calls(json.load(sys.stdin)), sys.stdout)
 """
 
 
@@ -812,8 +906,8 @@ def fresh_run(calls):
     cmd = [sys.executable]
     if getattr(sys, 'pycache_prefix', None):
         cmd += ['-X', 'pycache_prefix=' + sys.pycache_prefix]
-    cmd += ['-c', _FRESH_CODE, common.REPO]
-    env = dict(os.environ, PYTHONDONTWRITEBYTECODE='1')
+    cmd += ['-c', _FRESH_CODE, os.path.join(common.VERIF, 'harness')]
+    env = dict(os.environ, PYTHONDONTWRITEBYTECODE='1', VERIF_REPO=common.REPO)
     p = subprocess.run(cmd, input=json.dumps([list(c) for c in calls]).encode(), stdout=subprocess.PIPE,
                        stderr=subprocess.PIPE, env=env, timeout=1800)
     if p.returncode != 0:
@@ -835,26 +929,25 @@ def time_left():
     return _BUDGET['until'] is None or time.time() < _BUDGET['until']
 
 
-def alone(v, s):
+def alone(v, s, form='pp'):
     """Outcome of the single call in a fresh interpreter."""
-    if (v, s) not in _ALONE:
-        _ALONE[(v, s)] = fresh_run([(v, s)])[0]
-    return _ALONE[(v, s)]
+    if (v, s, form) not in _ALONE:
+        _ALONE[(v, s, form)] = fresh_run([mk_call(v, s, form)])[0]
+    return _ALONE[(v, s, form)]
 
 
-def expected_outcome(v, s):
+def expected_outcome(v, s, form='pp'):
     """What the last call of a sequence has to return: the documented meaning of its own arguments
     when the spec is in the documented language, else whatever the call returns on its own."""
     want = documented_meaning(v, s)
-    return 'ok:%d' % want if want is not None else alone(v, s)
+    return 'ok:%d' % want if want is not None else alone(v, s, form)
 
 
 def sequence_fails(calls):
     """In a fresh interpreter: does the last call of the sequence give a wrong answer?"""
-    if not calls:
+    if not calls or is_event(calls[-1]):
         return False
-    v, s = calls[-1]
-    return fresh_run(calls)[-1] != expected_outcome(v, s)
+    return fresh_run(calls)[-1] != expected_outcome(*vsf(calls[-1]))
 
 
 def shrink_sequence(calls):
@@ -868,12 +961,16 @@ def shrink_sequence(calls):
             pre.append(c)
     if not sequence_fails(pre + [last]):
         pre = calls[:-1]
-    # first guess: the earlier calls whose spec has the same characters once whitespace is removed
+
     def squash(spec):
         return ''.join(spec.split())
-    same = [c for c in pre if squash(c[1]) == squash(last[1])]
-    if same and len(same) < len(pre) and time_left() and sequence_fails(same + [last]):
-        pre = same
+    # first guesses: only the calls that are not match() calls; only the earlier calls whose spec has the
+    # same characters once whitespace is removed
+    for guess in ([c for c in pre if is_event(c)],
+                  [c for c in pre if not is_event(c) and squash(c[1]) == squash(last[1])]):
+        if guess and len(guess) < len(pre) and time_left() and sequence_fails(guess + [last]):
+            pre = guess
+            break
     if len(pre) >= 2:
         pre = common.shrink_list(pre, lambda sub: time_left() and sequence_fails(list(sub) + [last]),
                                  max_steps=60 if len(pre) < 2000 else 25)
@@ -887,34 +984,56 @@ def show(out):
 def history_failure(prefix, got, log):
     """A call gave `got` in this process, which is not what its arguments mean.  Find a short call
     sequence that reproduces it in a fresh interpreter."""
-    v, s = prefix[-1]
-    want = expected_outcome(v, s)
+    last = tuple(prefix[-1])
+    v, s, form = vsf(last)
+    want = expected_outcome(v, s, form)
     op = (s.split() or ['?'])[0]
     opname = op if op in DOC_OPS else 'no-operator'
-    if alone(v, s) != want:
-        v2, s2 = shrink_case(v, s)
-        return Failure({'value': v2, 'spec': s2},
-                       {'kind': 'operator ' + (s2.split()[0] if s2.split() and s2.split()[0] in DOC_OPS
-                                               else 'no-operator'),
-                        'what': oracle_fresh(v2, s2), 'tree': impl_tree(s2)})
+    if alone(v, s, form) != want:
+        v2, s2, form2 = shrink_case(v, s, form)
+        case = {'value': v2, 'spec': s2}
+        if form2 != 'pp':
+            case['form'] = form2
+        return Failure(case, {'kind': ('operator ' if form2 == 'pp' else 'call form %s, operator ' % form2)
+                                      + (s2.split()[0] if s2.split() and s2.split()[0] in DOC_OPS
+                                         else 'no-operator'),
+                              'what': oracle_fresh(v2, s2, form2), 'tree': impl_tree(s2)})
     squashed = ''.join(s.split())
-    guess = [c for c in dict.fromkeys(log[:-1]) if ''.join(c[1].split()) == squashed] + [(v, s)]
-    for cand in (prefix, guess, log):
+    events = list(_EVENTS) + [last]           # every non-match() public call made earlier in this process
+    guess = [c for c in dict.fromkeys(log[:-1])
+             if not is_event(c) and ''.join(c[1].split()) == squashed] + [last]
+    for cand in (prefix, events, guess, log):
         if not time_left():
             break
-        if cand and tuple(cand[-1]) == (v, s) and sequence_fails(cand):
+        if cand and len(cand) > 1 and tuple(cand[-1]) == last and sequence_fails(cand):
             seq = shrink_sequence(cand)
             outs = fresh_run(seq)
             return Failure({'calls': [list(c) for c in seq]},
                            {'kind': 'result depends on call history: ' + opname,
-                            'what': 'after %d earlier call(s) %s: %s; the same call on its own is %s' % (
-                                        len(seq) - 1, ', '.join('match(%r, %r)' % c for c in seq[:-1][:6]),
-                                        describe(v, s, outs[-1], documented_meaning(v, s)), show(alone(v, s)))})
-    tail = [list(c) for c in log[-200:]]
+                            'what': 'after %d earlier call(s) [%s]: %s; the same call on its own is %s' % (
+                                        len(seq) - 1, '; '.join(show_call(c) for c in seq[:-1][:6]),
+                                        describe(v, s, outs[-1], documented_meaning(v, s), form),
+                                        show(alone(v, s, form)))})
+    tail = [list(c) for c in (list(_EVENTS) + log)[-200:]]
     return Failure({'calls': tail},
-                   {'kind': 'result depends on call history (not confirmed in a fresh interpreter within the time budget): ' + opname,
-                    'what': 'in the checking process match(%r, %r) was %s, expected %s; the last 200 calls are kept'
-                            % (v, s, show(got), show(want))})
+                   {'kind': 'result depends on call history (not confirmed in a fresh interpreter within the '
+                            'time budget): ' + opname,
+                    'what': 'in the checking process %s was %s, expected %s; the last 200 calls are kept'
+                            % (show_call(last), show(got), show(want))})
+
+
+def gen_grammar_sequence(rng):
+    """match() calls, then a caller obtains the grammar from the public make_grammar() and uses / customises
+    it, then the same and further match() calls (in every call form)."""
+    hashy = [('#1', 's== #1'), ('#b', '<or> #a <or> #b'), ('a#b', '<in> #'), ('5', '>= 3 #7'), ('x', 'x')]
+    before = [gen_case(rng)[:2] for _ in range(3)] + [rng.choice(hashy)]
+    calls = [mk_call(v, s) for v, s in before]
+    for _ in range(rng.randrange(1, 3)):
+        calls.append((None, rng.choice(MUTATIONS)))
+    after = before + [gen_case(rng)[:2] for _ in range(3)] + hashy
+    rng.shuffle(after)
+    calls += [mk_call(v, s, rng.choice(FORMS) if rng.random() < 0.3 else 'pp') for v, s in after]
+    return calls
 
 
 # --------------------------------------------------------------------------
@@ -1012,7 +1131,9 @@ def correspondence(ctx):
         ctx.evaluations += 1
         ctx.count('corr/' + tag.split('/')[0])
         tree = impl_tree(s)
-        res = impl_match(v, s)
+        form = rng.choice(FORMS) if rng.random() < 0.1 else 'pp'
+        ctx.count('call-form/' + form)
+        res = impl_match(v, s, form)
         mt, _, mo = rep.partition('\t')
         ctx.count('impl-outcome/' + res)
         ctx.count('tree/' + ('PE' if tree is None else 'atom' if len(tree) == 1 else tree[0]))
@@ -1026,16 +1147,31 @@ def correspondence(ctx):
         if ctx.hist.get('corr/' + tag.split('/')[0]) == 3:
             ctx.sample({'value': v, 'spec': s, 'tree': tree, 'implementation': res, 'model': mo}, 12)
         if not agree:
-            out.append(Disagreement({'value': v, 'spec': s}, show_tree(tree) + '\t' + res, rep))
-    # call sequences: specs that differ only in where the whitespace falls, back to back, both orders
-    for _ in range(80 if ctx.quick else 800):
-        vals, specs, tag = gen_family(rng)
-        calls = family_calls(vals, specs, rng)
-        replies = ctx.driver.ask_many([match_line(v, s) for v, s in calls])
-        for i, ((v, s), rep) in enumerate(zip(calls, replies)):
+            case = {'value': v, 'spec': s}
+            if form != 'pp':
+                case['form'] = form
+            out.append(Disagreement(case, show_tree(tree) + '\t' + res, rep))
+    # call sequences: specs that differ only in where the whitespace falls, back to back, both orders;
+    # and match() around a caller that takes the grammar from the public make_grammar() and customises it
+    n_fam, n_gram = (80, 30) if ctx.quick else (800, 300)
+    for k in range(n_fam + n_gram):
+        if k < n_fam:
+            vals, specs, tag = gen_family(rng)
+            calls = family_calls(vals, specs, rng)
+        else:
+            calls, tag = gen_grammar_sequence(rng), 'grammar'
+        matches = [c for c in calls if not is_event(c)]
+        replies = iter(ctx.driver.ask_many([match_line(c[0], c[1]) for c in matches]))
+        for i, c in enumerate(calls):
+            if is_event(c):
+                do_call(c)
+                ctx.count('corr/grammar-event-' + c[1])
+                continue
+            v, s, form = vsf(c)
+            rep = next(replies)
             ctx.evaluations += 1
             ctx.count('corr/sequence-' + tag)
-            res = impl_match(v, s)
+            res = impl_match(v, s, form)
             mt, _, mo = rep.partition('\t')
             if mo == 'unmodelled':
                 ctx.count('model-unmodelled')
@@ -1043,7 +1179,7 @@ def correspondence(ctx):
             if res in ('ok:0', 'ok:1') and mo == res:
                 ctx.nontrivial((v, s))
             if mo != res:
-                out.append(Disagreement({'value': v, 'spec': s, 'calls': [list(c) for c in calls[:i + 1]]},
+                out.append(Disagreement({'value': v, 'spec': s, 'calls': [list(x) for x in calls[:i + 1]]},
                                         res, rep, where='call sequence (the model is stateless)'))
                 break
     # float() and literal_eval models on their own
@@ -1167,8 +1303,9 @@ def documented_meaning(value, spec):
     return None
 
 
-def describe(value, spec, got, want):
+def describe(value, spec, got, want, form='pp'):
     """One line: what the call did and what its arguments mean."""
+    call = show_call(mk_call(value, spec, form))
     toks = spec.split()
     meaning = 'the documented meaning is %s' % want
     if toks and toks[0] in DOC_NUM and len(toks) == 2:
@@ -1179,8 +1316,8 @@ def describe(value, spec, got, want):
         meaning = 'the documented meaning is the interval test %s in %s%s, %s%s = %s' % (
             doc_number(value, blanks=True, pylit=True), toks[1], doc_number(toks[2]), doc_number(toks[3]), toks[4], want)
     if got in ('ok:0', 'ok:1'):
-        return 'match(%r, %r) is %s; %s' % (value, spec, show(got), meaning)
-    return 'match(%r, %r) raised %s where %s' % (value, spec, got, meaning)
+        return '%s is %s; %s' % (call, show(got), meaning)
+    return '%s raised %s where %s' % (call, got, meaning)
 
 
 def oracle(value, spec):
@@ -1192,13 +1329,13 @@ def oracle(value, spec):
     return describe(value, spec, got, want) if got != 'ok:%d' % want else None
 
 
-def oracle_fresh(value, spec):
+def oracle_fresh(value, spec, form='pp'):
     """`oracle`, with the call made on its own in a fresh interpreter."""
     want = documented_meaning(value, spec)
     if want is None:
         return None
-    got = alone(value, spec)
-    return describe(value, spec, got, want) if got != 'ok:%d' % want else None
+    got = alone(value, spec, form)
+    return describe(value, spec, got, want, form) if got != 'ok:%d' % want else None
 
 
 def plain_numeral(text):
@@ -1208,16 +1345,18 @@ def plain_numeral(text):
     return render_num(q, None, plain=True)
 
 
-def shrink_case(value, spec):
-    """Fewer / simpler tokens while the single call (fresh interpreter) still fails."""
+def shrink_case(value, spec, form='pp'):
+    """Fewer / simpler tokens (and the plain call form) while the single call (fresh interpreter) still fails."""
+    if form != 'pp' and time_left() and oracle_fresh(value, spec, 'pp'):
+        form = 'pp'                      # the call form is not what matters
     toks = spec.split()
     if len(toks) > 2:
         def still(sub):
-            return time_left() and oracle_fresh(value, ' '.join(sub)) is not None
+            return time_left() and oracle_fresh(value, ' '.join(sub), form) is not None
         toks = common.shrink_list(toks, still, max_steps=40)
     cand = ' '.join(toks)
-    if not (time_left() and oracle_fresh(value, cand)):
-        return value, spec
+    if not (time_left() and oracle_fresh(value, cand, form)):
+        return value, spec, form
     # numeric operands: write each side plainly when the failure survives, so that the spelling that
     # matters is the one left in the replay
     if toks[0] in DOC_NUM or toks[0] == '<range-in>':
@@ -1229,21 +1368,22 @@ def shrink_case(value, spec):
                 v2 = plain_numeral(value)
             else:
                 t2[i] = plain_numeral(toks[i])
-            if (v2, t2) != (value, toks) and oracle_fresh(v2, ' '.join(t2)):
+            if (v2, t2) != (value, toks) and oracle_fresh(v2, ' '.join(t2), form):
                 value, toks = v2, t2
-    return value, ' '.join(toks)
+    return value, ' '.join(toks), form
 
 
 def search(ctx, seeds, full=False):
     rng = ctx.rng
     fails, seen = [], set()
     log = []                       # every call made on the implementation in this search, in order
-    first = {}                     # (value, spec) -> first outcome in this process
+    first = {}                     # call -> first outcome in this process
 
-    def call(v, s):
-        log.append((v, s))
-        got = impl_match(v, s)
-        first.setdefault((v, s), got)
+    def call(c):
+        log.append(c)
+        got = do_call(c)
+        if not is_event(c):
+            first.setdefault(c, got)
         return got
 
     start_budget(60 if ctx.quick else 300)     # wall clock for confirming / shrinking in fresh interpreters
@@ -1259,17 +1399,22 @@ def search(ctx, seeds, full=False):
         fails.append(history_failure(prefix, got, list(log)))
 
     def run_sequence(calls, tag):
-        """Back-to-back calls; each judged by the documented meaning of its own arguments."""
-        for i, (v, s) in enumerate(calls):
+        """Back-to-back calls; each match() judged by the documented meaning of its own arguments."""
+        for i, c in enumerate(calls):
+            if is_event(c):
+                call(c)
+                ctx.count('search/grammar-event-' + c[1])
+                continue
+            v, s, form = vsf(c)
             ctx.evaluations += 1
             want = documented_meaning(v, s)
-            got = call(v, s)
+            got = call(c)
             if want is None:
                 ctx.count('search/outside-documented-language')
                 continue
             ctx.count('search/sequence-' + tag)
             if got != 'ok:%d' % want:
-                report([tuple(c) for c in calls[:i + 1]], got)
+                report([tuple(x) for x in calls[:i + 1]], got)
                 return
 
     # 1. what the correspondence disagreed on: single calls and call sequences
@@ -1278,48 +1423,61 @@ def search(ctx, seeds, full=False):
             break
         if 'calls' in sd:
             run_sequence([tuple(c) for c in sd['calls']], 'seed')
-    todo = [(sd['value'], sd['spec']) for sd in seeds[:300] if 'spec' in sd and 'calls' not in sd]
-    todo += [(v, s) for v, s, _ in fixed_cases()]
-    # 2. single calls
+    todo = [mk_call(sd['value'], sd['spec'], sd.get('form', 'pp'))
+            for sd in seeds[:300] if 'spec' in sd and 'calls' not in sd]
+    todo += [mk_call(v, s, form) for v, s, _ in fixed_cases()[:40] for form in FORMS]
+    todo += [mk_call(v, s) for v, s, _ in fixed_cases()]
+    # 2. single calls, in every call form of the pinned signature match(cmp_value, spec)
     n = (25000 if full else 6000) if ctx.quick else (150000 if full else 40000)
     judged = 0
     for i in range(n + len(todo)):
         if len(fails) >= 5:
             break
         if i < len(todo):
-            v, s = todo[i]
+            c = todo[i]
         else:
             v, s, _ = gen_case(rng) if rng.random() < 0.9 else gen_soup(rng)
             if rng.random() < 0.05:
                 v, s, _ = mutate_spec(v, s, rng)
+            c = mk_call(v, s, rng.choice(FORMS) if rng.random() < 0.12 else 'pp')
+        v, s, form = vsf(c)
         ctx.evaluations += 1
+        ctx.count('search/call-form-' + form)
         want = documented_meaning(v, s)
-        got = call(v, s)
+        got = call(c)
         if want is None:
             ctx.count('search/outside-documented-language')
             continue
         judged += 1
         if got != 'ok:%d' % want:
-            report([(v, s)], got)
+            report([c], got)
     ctx.count('search/judged', judged)
-    # 3. families of specs that differ only in where the whitespace falls, both orders, same values
-    for _ in range((1000 if full else 150) if ctx.quick else (6000 if full else 1500)):
+    # 3. call sequences: families of specs that differ only in where the whitespace falls (both orders, same
+    #    values); match() before and after a caller customises the grammar the public make_grammar() returned
+    n_fam = (1000 if full else 150) if ctx.quick else (6000 if full else 1500)
+    n_gram = (200 if full else 40) if ctx.quick else (1500 if full else 400)
+    for k in range(n_fam + n_gram):
         if len(fails) >= 5:
             break
-        vals, specs, tag = gen_family(rng)
-        run_sequence(family_calls(vals, specs, rng), tag)
+        if k % 5 == 4 and n_gram:
+            n_gram -= 1
+            run_sequence(gen_grammar_sequence(rng), 'grammar')
+        elif n_fam:
+            n_fam -= 1
+            vals, specs, tag = gen_family(rng)
+            run_sequence(family_calls(vals, specs, rng), tag)
     # 4. re-evaluation in shuffled order: the answer to a call may not change during the process
     again = list(first.items())
     rng.shuffle(again)
-    for (v, s), was in again[:(1500 if ctx.quick else 10000)]:
+    for c, was in again[:(1500 if ctx.quick else 10000)]:
         if len(fails) >= 5:
             break
         ctx.evaluations += 1
         ctx.count('search/re-evaluated')
-        got = call(v, s)
+        got = call(c)
         if got != was:
-            bad = got if got != expected_outcome(v, s) else was
-            report([(v, s)], bad)
+            bad = got if got != expected_outcome(*vsf(c)) else was
+            report([c], bad)
     return fails
 
 
@@ -1328,14 +1486,17 @@ def replay(ctx, payload):
     if case and 'calls' in case:
         calls = [tuple(c) for c in case['calls']]
         outs = fresh_run(calls)
-        reps = ctx.driver.ask_many([match_line(v, s) for v, s in calls])
+        matches = [c for c in calls if not is_event(c)]
+        reps = iter(ctx.driver.ask_many([match_line(c[0], c[1]) for c in matches]))
         print('call sequence in a fresh interpreter (implementation / model / documented meaning of the call):')
-        for (v, s), o, rep in zip(calls, outs, reps):
-            print('  match(%r, %r) -> %s / %s / %s' % (v, s, show(o), show(rep.partition('\t')[2]),
-                                                      documented_meaning(v, s)))
-        v, s = calls[-1]
-        print('the last call on its own in a fresh interpreter -> %s' % show(alone(v, s)))
-        bad = outs[-1] != expected_outcome(v, s)
+        for c, o in zip(calls, outs):
+            if is_event(c):
+                print('  ' + show_call(c))
+                continue
+            print('  %s -> %s / %s / %s' % (show_call(c), show(o), show(next(reps).partition('\t')[2]),
+                                           documented_meaning(c[0], c[1])))
+        print('the last call on its own in a fresh interpreter -> %s' % show(alone(*vsf(calls[-1]))))
+        bad = outs[-1] != expected_outcome(*vsf(calls[-1]))
         print('property oracle on the implementation:',
               'the result of the last call depends on the calls before it' if bad else None)
         return 1 if bad else 0
@@ -1343,15 +1504,15 @@ def replay(ctx, payload):
         print('nothing to replay: this file names the obligation that no longer checks:')
         print(payload.get('no_longer_checks'))
         return 0
-    v, s = case['value'], case['spec']
-    print('value %r  spec %r' % (v, s))
-    print('implementation: tree=%r result=%s' % (impl_tree(s), impl_match(v, s)))
+    v, s, form = case['value'], case['spec'], case.get('form', 'pp')
+    print('call %s' % show_call(mk_call(v, s, form)))
+    print('implementation: tree=%r result=%s' % (impl_tree(s), impl_match(v, s, form)))
     rep = ctx.driver.ask(match_line(v, s))
     mt, _, mo = rep.partition('\t')
     print('model         : tree=%r result=%s' % (
         None if mt == 'PE' else [common.unhexs(t) for t in mt.split(',')], mo))
     print('documented    :', documented_meaning(v, s))
-    why = oracle(v, s)
+    why = oracle_fresh(v, s, form)
     print('property oracle on the implementation:', why)
     return 1 if why else 0
 
